@@ -5,8 +5,20 @@ from mir import term_str, strip_refs, callee_name, field_path, full_path
 from rules import rights
 
 
+LOCKED_TY = r"HashSet<\[u8; 16\]>$"      # the set of rooms being synchronised (identified by type, not by name)
+
+
+def rooted(b, t, ty_re):
+    """the term is a place rooted in a variable of the given type"""
+    return re.search(ty_re, mir.short_type(b.root_type(mir.strip(t)))) is not None
+
+
+def mentions_ty(b, t, ty_re):
+    return any(x[0] in ("var", "param") and len(x) > 2 and re.search(ty_re, mir.short_type(b.locals[x[2]])) for x in mir.subterms(t))
+
+
 def arith_sites(b, op, var):
-    """blocks with `*var op= 1`"""
+    """blocks with `*var op= 1` where var is the named counter"""
     out = []
     for bi in sorted(b.live_blocks()):
         for si, st in enumerate(b.blocks[bi]["s"]):
@@ -19,12 +31,17 @@ def arith_sites(b, op, var):
 
 
 def has_guard(b, bi, callee_re, truth, mention):
+    """mention: a field name, or ('ty', regex) for a variable identified by its type"""
+    def men(atom):
+        if isinstance(mention, tuple):
+            return mentions_ty(b, atom, mention[1])
+        return mir.mentions(atom, mention)
     for s, vals, term in b.guards(bi, expand_vars=False):
         atom, tr = mir.cond_atoms(term, vals)
-        if atom[0] == "call" and re.search(callee_re, atom[1]) and tr is truth and mir.mentions(atom, mention):
+        if atom[0] == "call" and re.search(callee_re, atom[1]) and tr is truth and men(atom):
             return True
         # is_ok(send(..)) form
-        if atom[0] == "call" and atom[1].endswith("Result::is_ok") and tr is truth and mir.has_call(atom, callee_re) and mir.mentions(atom, mention):
+        if atom[0] == "call" and atom[1].endswith("Result::is_ok") and tr is truth and mir.has_call(atom, callee_re) and men(atom):
             return True
     return False
 
@@ -50,12 +67,26 @@ def run(P, C, tier):
         C.anchor_missing("R1", "lock service", e)
         return
     C.saw(aq), C.saw(st)
-    ins = [bi for bi, t in aq.calls_to(r"HashSet::insert$") if mir.mentions(aq.call_args(bi)[0], "locked")]
+    try:
+        # the counter of free slots: the `&mut usize` argument of acquire_lock, and in the service loop the usize
+        # variable handed to it
+        AV_AQ = aq.the_local("the counter of available locks (acquire_lock)", ty=r"^&mut usize$", arg=True)
+        acalls = st.calls_to(r"RoomLockService::acquire_lock$")
+        avs = {field_path(st.call_args(bi)[3]) for bi, t in acalls}
+        if len(avs) != 1:
+            raise mir.MissingAnchor("the counter handed to acquire_lock: %s" % sorted(avs))
+        AV_ST = avs.pop()
+        FLAG = aq.the_local("the `granted` flag of acquire_lock", ty=r"^bool$", const=True)
+    except mir.MissingAnchor as e:
+        C.anchor_missing("R1", "variables of the lock service", e)
+        return
+    LK = ("ty", LOCKED_TY)
+    ins = [bi for bi, t in aq.calls_to(r"HashSet::insert$") if rooted(aq, aq.call_args(bi)[0], LOCKED_TY)]
     C.ob("R1", "insert-sites", len(ins) == 1, aq.loc(), "one site adds to `locked`", nontrivial=False)
-    subs = arith_sites(aq, "Sub", "avalaible")
+    subs = arith_sites(aq, "Sub", AV_AQ)
     for bi in ins:
         room = aq.call_args(bi)[1]
-        absent = has_guard(aq, bi, r"HashSet::contains$", False, "locked")
+        absent = has_guard(aq, bi, r"HashSet::contains$", False, LK)
         granted = has_guard(aq, bi, r"UnboundedSender::send$", True, "reply")
         # same room in all three
         same = False
@@ -77,7 +108,7 @@ def run(P, C, tier):
     # one grant per call: after the insert the inner loop is left and the peer loop is left
     # (lock_aquired => break) : from the insert, no second insert is reachable
     for bi in ins:
-        flag = [l for l, n in aq.names.items() if n == "lock_aquired"]
+        flag = [l for l, n in aq.names.items() if n == FLAG]
         again = True
         if len(flag) == 1:
             r = set()
@@ -85,11 +116,11 @@ def run(P, C, tier):
                 r |= aq.reachable_flag(sx, flag[0], None)
             again = bi in r
         C.ob("R1", "one-grant-per-call", not again, aq.loc(bi), "acquire_lock grants at most one room per call: with the `lock_aquired` flag tracked along the path, the insert is not reachable from itself")
-    adds = arith_sites(st, "Add", "avalaible")
-    rem = [bi for bi, t in st.calls_to(r"HashSet::remove$") if mir.mentions(st.call_args(bi)[0], "locked")]
+    adds = arith_sites(st, "Add", AV_ST)
+    rem = [bi for bi, t in st.calls_to(r"HashSet::remove$") if rooted(st, st.call_args(bi)[0], LOCKED_TY)]
     C.ob("R1", "release-sites", len(rem) == 1 and len(adds) == 1, st.loc(), "one release site, one increment", nontrivial=False)
     for ab in adds:
-        ok = has_guard(st, ab, r"HashSet::remove$", True, "locked")
+        ok = has_guard(st, ab, r"HashSet::remove$", True, LK)
         C.ob("R1", "increment-only-on-held-room", ok, st.loc(ab), "avalaible += 1 only on the true edge of locked.remove(&room): releasing a room that is not held changes nothing")
     # acquire_lock call sites
     for bi, t in st.calls_to(r"RoomLockService::acquire_lock$"):
@@ -107,11 +138,11 @@ def run(P, C, tier):
                 if c is not None:
                     rng = mir.has_call(term, r"::into_iter$")
                     src = rng[2][0] if rng else None
-                    if src is not None and src[0] == "aggr" and src[2].endswith("Range") and any(field_path(x) == "avalaible" for x in mir.subterms(src) if x[0] in ("var", "param", "upvar", "field", "deref")):
+                    if src is not None and src[0] == "aggr" and src[2].endswith("Range") and any(field_path(x) == AV_ST for x in [y for z in mir.subterms(src) if z[0] in ("var", "param", "upvar", "field", "deref") for y in ([z] + (st.var_defs(z) if z[0] == "var" else []))]):
                         bounded = True
             C.ob("R1", "grants-bounded:RequestLock", bounded, st.loc(bi), "grant attempts are made inside `for _ in 0..avalaible` (copied before the loop)")
         elif arm == "Unlock":
-            ok = has_guard(st, bi, r"HashSet::remove$", True, "locked") and any(st.dominates(ab, bi) for ab in adds)
+            ok = has_guard(st, bi, r"HashSet::remove$", True, LK) and any(st.dominates(ab, bi) for ab in adds)
             C.ob("R1", "grants-bounded:Unlock", ok, st.loc(bi), "one grant attempt, only after a held room was released and the counter incremented")
         else:
             C.ob("R1", "grants-bounded:?", False, st.loc(bi), "acquire_lock called outside a message arm")
@@ -167,28 +198,27 @@ def run(P, C, tier):
         handlers = [bi for bi, t in s.calls_to(r"LocalPeerService::(process_remote_event|process_local_event|process_acquired_room)$")]
         ok = bool(handlers) and all(s.must_pass(h, [cl], s.exits()) for h in handlers)
         C.ob("R3", "cleanup-on-every-loop-exit", ok, s.loc(cl), "every path from the event loop to the end of the connection task passes cleanup(..)")
-        # which collections feed `rooms`
+        # which collections feed the list handed to cleanup (identified as cleanup's argument, not by name)
+        ROOMS = field_path(s.call_args(cl)[1])
+        HELD_TY = r"Mutex<HashSet<\[u8; 16\]>>"
+        lock_calls = [b2 for b2, t2 in s.calls_to(r"Mutex.*::lock$") if re.search(HELD_TY, s.cpath(s.call_args(b2)[0]))]
         feeds = set()
+        held = False
         for bi, t in s.calls_to(r"Vec::push$"):
             a = s.call_args(bi)
-            if field_path(a[0]) == "rooms":
-                feeds.add(full_path(s, a[1]))
-        held = any("acquere" in f or "acquired_lock" in f for f in feeds)
-        if not held:
-            # `for room in acquere.drain()`: follow the pushed value to the drained set
-            for bi, t in s.calls_to(r"Vec::push$"):
-                a = s.call_args(bi)
-                if field_path(a[0]) == "rooms":
-                    terms, bars = mir.flow_sources(s, a[1], r"Mutex.*::lock$")
-                    if bars and any("acquired_lock" in term_str(x) for x in [s.operand_term(s.blocks[b2]["t"]["args"][0]) for b2, t2 in s.calls_to(r"Mutex.*::lock$")]):
-                        held = held or any(n.endswith("::drain") for n in terms) or "acquere" in term_str(a[1])
-        C.ob("R3", "held-rooms-released", held, s.loc(cl), "cleanup receives the rooms of acquired_lock (sources of `rooms`: %s)" % sorted(feeds))
-        drained = bool(s.calls_to(r"UnboundedReceiver::try_recv$")) and any(True for bi, t in s.calls_to(r"UnboundedReceiver::try_recv$") if s.dominates(bi, cl) or bi in s.reachable(0))
+            if field_path(a[0]) != ROOMS:
+                continue
+            feeds.add(s.cpath(a[1]))
+            terms, bars = mir.flow_sources(s, a[1], r"Mutex.*::lock$")
+            coll = mir.elem_collection(s, mir.strip(a[1])) if mir.strip(a[1])[0] == "var" else None
+            if bars and lock_calls and coll is not None and rooted(s, coll, r"HashSet<\[u8; 16\]>"):
+                held = True
+        C.ob("R3", "held-rooms-released", held, s.loc(cl), "cleanup receives the rooms of the connection's held set (Mutex<HashSet<Uid>>): sources of the list %s" % sorted(feeds))
         drain_calls = [bi for bi, t in s.calls_to(r"UnboundedReceiver::try_recv$") if cl in s.reach_after(bi)]
         feeds_from_queue = False
         for bi, t in s.calls_to(r"Vec::push$"):
             a = s.call_args(bi, expand_vars=True)
-            if field_path(s.call_args(bi)[0]) == "rooms" and mir.has_call(a[1], r"UnboundedReceiver::try_recv$"):
+            if field_path(s.call_args(bi)[0]) == ROOMS and mir.has_call(a[1], r"UnboundedReceiver::try_recv$"):
                 feeds_from_queue = True
         C.ob("R3", "queued-grants-released", bool(drain_calls) and feeds_from_queue, s.loc(cl),
              "grants already sent by the lock service but still queued in lock_receiver when the loop ends are drained into the released rooms (drain sites: %d)" % len(drain_calls))
@@ -196,17 +226,8 @@ def run(P, C, tier):
         cleanup_takes = False
         for bi, t in s.calls_to(r"HashSet::(drain|clear|remove|take)$"):
             recv = s.call_args(bi)[0]
-            names = set()
-            frontier = [recv]
-            for _ in range(4):
-                nxt = []
-                for tm in frontier:
-                    for x in mir.subterms(tm):
-                        if x[0] == "var" and x[1] not in names:
-                            names.add(x[1])
-                            nxt += s.var_defs(x)
-                frontier = nxt
-            if cl in s.reach_after(bi) and "acquired_lock" in names:
+            terms, bars = mir.flow_sources(s, recv, r"Mutex.*::lock$")
+            if cl in s.reach_after(bi) and bars and lock_calls:
                 cleanup_takes = True
         C.ob("R3", "double-release", task_conditional and cleanup_takes, s.loc(cl),
              "a room whose task is still running is released by cleanup and again by the task; the lock service identifies a lock by room only, so the "
